@@ -864,12 +864,16 @@ def free_stage(sel, cap):
         write_ndjson(pfile, [{"alpha": meta["alphabet"], "n": meta["n"], "asbuilt": ["RestoreKeepsErrorState"]}])
         res = run_tlc("MC_P2F", "MC_P2F.cfg", env={"GFILE": gfile, "PFILE": pfile}, workers=3, timeout=2400,
                       xmx="4g", job="p2f-%s" % b.name)
-        return b, outs, res
+        # liveness on a smaller instance: every behaviour terminates under weak fairness
+        write_ndjson(pfile + ".live", [{"alpha": meta["alphabet"], "n": min(meta["n"], 3), "asbuilt": ["RestoreKeepsErrorState"]}])
+        live = run_tlc("MC_P2F", "MC_P2F_Live.cfg", env={"GFILE": gfile, "PFILE": pfile + ".live"}, workers=2, timeout=900,
+                       xmx="3g", job="p2fl-%s" % b.name)
+        return b, outs, res, live
     out = {"grammars": 0, "states": 0, "transitions": 0, "behaviours": 0, "invariant_violations": {},
            "enumeration_mismatch": {}, "errors": {}}
-    for b, outs, res in parallel(one, sel, jobs=4):
+    for b, outs, res, live in parallel(one, sel, jobs=4):
         out["grammars"] += 1
-        out["states"] += res.distinct
+        out["states"] += res.distinct + live.distinct
         out["transitions"] += res.generated
         if res.error:
             out["errors"][b.name] = res.error[:200]
@@ -877,6 +881,7 @@ def free_stage(sel, cap):
         if res.violated:
             out["invariant_violations"][b.name] = res.violated
             continue
+        out.setdefault("liveness", {})[b.name] = "holds" if live.ok else str(live.violated or live.error or "?")[:80]
         done = {(d["en"], tuple(d["w"]), tuple(d["u"])) for d in res.payload("DONE") if d}
         rec = {(o["en"], tuple(o["w"]), tuple(o["s"])) for o in outs}
         out["behaviours"] += len(done)
